@@ -248,6 +248,7 @@ def check_byte_offsets(fx, rep, rule):
     mixing in an item count (position(), enumerate()) is a unit error for non-ASCII names"""
     p = A.func(fx, "java", "parse_obfuscated_bytecode_signature")
     if len(p) != 1:
+        A.one(rep, rule, "java::parse_obfuscated_bytecode_signature", p)
         return
     b = fx.bodies[p[0]]
     fam = C.Family(fx, p[0])
@@ -273,6 +274,7 @@ def check_tokenizer(fx, rep, rule):
     p = A.func(fx, "java", "parse_obfuscated_bytecode_signature")
     prim = A.func(fx, "java", "java_base_types")
     if len(p) != 1 or len(prim) != 1:
+        A.one(rep, rule, "java::parse_obfuscated_bytecode_signature / java::java_base_types", [])
         return
     b = fx.bodies[p[0]]
     sy = S.Sym(fx, opaque=lambda q: q in prim)
@@ -522,6 +524,8 @@ def check_entry_points(fx, rep, rule):
     for T, jn, impl in ((A.MAPPER, "deobfuscate_bytecode_signature", "mapper"), (A.CACHE, "deobfuscate_bytecode_signature_cache", "cache")):
         p = A.one(rep, rule, "%s::deobfuscate_signature" % impl, A.method(fx, T, "deobfuscate_signature"))
         jf = A.func(fx, "java", jn)
+        if p and len(jf) != 1:
+            A.one(rep, rule, "java::" + jn, jf)
         if not p or len(jf) != 1:
             continue
         rep.fn(p)
